@@ -998,6 +998,12 @@ func (e *Engine) evalSpecCall(env *specEnv, n *ast.CallExpr) specVal {
 	case "cstring":
 		a := e.evalSpec(env, n.Args[0])
 		return specVal{Value{env.s.selectIn(env.heap, "cgo.cstring", SStr, []*Term{a.v[0]})}, types.Typ[types.String]}
+	case "filecontent":
+		// the content os.ReadFile(path) returns when it is the k-th effect of the run (k = number of
+		// file-system / stdout effects before the read)
+		a := e.evalSpec(env, n.Args[0])
+		k := e.evalSpec(env, n.Args[1])
+		return specVal{Value{App("fs.content", SStr, a.v[0], k.v[0])}, types.Typ[types.String]}
 	case "gostring":
 		a := e.evalSpec(env, n.Args[0])
 		return specVal{Value{App("cgo.GoString", SStr, a.v[0])}, types.Typ[types.String]}
